@@ -15,10 +15,7 @@ INVS = ["InvNoWriteAfterFail", "InvReturnsE", "InvNoHostPanic", "InvNilWithoutFa
 
 # Demonstrated on the unchanged /repo (see the report): run.go OpReturn raises the Markdown converter's error as
 # fatalError -> Run panics into the host with "fatal error: E" instead of returning E.
-PROPOSED_KNOWN = [
-    {"kind": "known", "signature": {"fam": "writer", "clause": "hostpanic", "path": "converter"},
-     "what": "Markdown macro / .md partial shown in HTML, writer failing on a write of the Markdown converter: run.go OpReturn raises the converter's error as fatalError, Run panics into the host with `fatal error: E` instead of returning E"},
-]
+PROPOSED_KNOWN = []   # the converter defect found by this check was fixed in /repo (known-findings.json, kind "fixed")
 
 SELFTEST_ID = 900000
 ALL_MODES = ["fail", "short", "sticky", "fail+sw", "short+sw", "sticky+sw"]
@@ -46,7 +43,7 @@ def model_check(ctx):
         if not rc.ok:
             raise Infra(f"MC_Writer coverage run did not pass: {wdc}/MC_Writer.out")
         ctx.cov["actions_never_taken"] = rc.coverage_zero()
-        ctx.cov["actions_coverage_measured_on"] = f"len<=3 / 4 + catalogue shapes: {rc.distinct} states"
+        ctx.cov["actions_coverage_measured_on"] = f"len<=3 / 4 + catalogue shapes: {rc.distinct} states (HostPanic is reachable only in the fatalError variant, which the sensitivity run below exercises)"
     # 2. sensitivity / the code as found: raised as fatalError -> the model must violate NoHostPanic
     wd2, r2, _ = mc(ctx, "mc_fatal", True, 2, 2, invs=["InvNoHostPanic"])
     viol = "InvNoHostPanic" in r2.invariant_violated
